@@ -10,10 +10,11 @@ Section EvalFacts.
   Variable truth : atom -> nat -> tv.
 
   Definition atom_clean (i : nat) (a : atom) : Prop :=
-    lookup_escapes V = false \/ tv_through_scalar (truth a i) = false.
+    tv_fault (truth a i) = None /\
+    (lookup_escapes V = false \/ tv_through_scalar (truth a i) = false).
 
   Lemma atom_val_clean a i : atom_clean i a -> atom_val V truth a i = VB (tv_val (truth a i)).
-  Proof. unfold atom_val. intros [-> | ->]; [reflexivity|]. now rewrite andb_false_r. Qed.
+  Proof. unfold atom_val. intros [-> [-> | ->]]; [reflexivity|]. now rewrite andb_false_r. Qed.
 
   (* every atom that is reached yields a truth value: the result is the Boolean reading *)
   Lemma eval_visited e i : Forall (atom_clean i) (visited V truth e i) ->
@@ -99,6 +100,27 @@ Section EvalFacts.
     eval V truth (Or a b) i = VB true /\ visited V truth (Or a b) i = visited V truth a i.
   Proof. intros H. cbn [eval visited]. now rewrite H. Qed.
 End EvalFacts.
+
+(* evaluation depends on the variant only through the atoms *)
+Lemma eval_ext V V' truth e i :
+  (forall a, In a (atoms e) -> atom_val V truth a i = atom_val V' truth a i) ->
+  eval V truth e i = eval V' truth e i.
+Proof.
+  induction e as [a|e IH|a IHa b IHb|a IHa b IHb]; cbn [eval atoms]; intros H.
+  - apply H. now left.
+  - now rewrite IH.
+  - rewrite IHa, IHb; [reflexivity| |]; intros x Hx; apply H; apply in_or_app; auto.
+  - rewrite IHa, IHb; [reflexivity| |]; intros x Hx; apply H; apply in_or_app; auto.
+Qed.
+
+(* calls are independent of each other: the i-th result is the evaluation on the i-th environment alone,
+   whatever was evaluated before on the same (cached) expression *)
+Lemma outcome_nth V truth n e i d : (i < n)%nat ->
+  nth i (outcome V truth n (Ok e)) d = eval V truth e i.
+Proof.
+  intros Hi. cbn [outcome]. rewrite (nth_indep _ d (eval V truth e 0)) by (now rewrite map_length, seq_length).
+  rewrite map_nth. rewrite seq_nth by exact Hi. reflexivity.
+Qed.
 
 (* ---------- the cache ---------- *)
 Section Cache.
